@@ -60,3 +60,33 @@ pub async fn keyboard_send_event(
 ) -> Result<(), CriticalError> {
 	crate::sources::keyboard::verif_send_event(errors, events, msg).await
 }
+
+thread_local! {
+	static HASH_SEED: std::cell::Cell<u64> = const { std::cell::Cell::new(0) };
+}
+
+/// Seed for the hashers built by [`SeededState`] on the current thread.
+pub fn set_hash_seed(seed: u64) {
+	HASH_SEED.with(|s| s.set(seed));
+}
+
+/// A `BuildHasher` whose iteration order is a pure function of the thread's seed.
+#[derive(Clone, Copy, Debug, Default)]
+pub struct SeededState(u64);
+
+impl SeededState {
+	pub fn current() -> Self {
+		Self(HASH_SEED.with(std::cell::Cell::get))
+	}
+}
+
+impl std::hash::BuildHasher for SeededState {
+	type Hasher = std::collections::hash_map::DefaultHasher;
+
+	fn build_hasher(&self) -> Self::Hasher {
+		use std::hash::Hasher;
+		let mut h = std::collections::hash_map::DefaultHasher::new();
+		h.write_u64(self.0);
+		h
+	}
+}
